@@ -101,7 +101,7 @@ def _resolved(fi, e, at):
     return resolve_arg(fi, e, at) if isinstance(e, ast.Name) else e
 
 
-ROOTS = ["/srv/www", "/srv/www/", "/"]
+ROOTS = ["/srv/www", "/srv/www/", "/", "", ".", "rel/dir", "rel/dir/", "/srv/www//"]
 ABS_NAMES = ["/etc/passwd", "/srv/wwwx/a", "/srv/www", "/srv/www/", "/srv/www/a", "/srv/wwwx", "/srv/ww", "/", "", "a//b", "/SRV/WWW/a", "\\etc\\passwd", "/srv/www/a/b.txt",
              "/srv", "/srv/www.bak/x", "//etc/passwd"]
 
